@@ -232,7 +232,9 @@ pub fn c15(ctx: &Ctx) -> Report {
         s.send_other = vec![(1, 2)];
         s.poll_whens = vec![When::Wake, When::Far];
         s.incoming = vec![(0, 0), (1, 2), (4, 3), (5, 4), (6, 5), (7, 6)];
-        s.resp = vec![(2, Auth::None, 0), (2, Auth::Sha1(1), 1), (2, Auth::Sha1(2), 1)];
+        // responses whose attributes name other addresses of the universe (300 + ALTERNATE-SERVER naming
+        // P5, XOR-MAPPED-ADDRESS naming P4), unsigned and signed: what a response says validates nobody
+        s.resp = vec![(2, Auth::None, 0), (2, Auth::Sha1(1), 1), (2, Auth::Sha1(2), 1), (6, Auth::None, 0), (6, Auth::Sha1(1), 1), (7, Auth::Sha1(1), 1), (4, Auth::Sha1(1), 1)];
         s.set_remote = vec![1, 2, 3];
         s.set_local = vec![0, 3];
         s.configs = vec![0, 1];
